@@ -193,7 +193,7 @@ class Model:
             out = "\nBODY:%s[%d|%s]" % (T, self.tick("body"), x)
             out += d0(1) + d0(2) + d0(1) + d1()
             out += self.section("b0", "render_b0", lambda: "B0:%s[%d|%s]" % (T, self.tick("b0"), x))
-            out += self.section("anon", "<anon>", lambda: "AN:%s[%d|%s]" % (T, self.tick("anon"), x))
+            out += self.section("anon", self.spec.get("anon_key", "<anon>"), lambda: "AN:%s[%d|%s]" % (T, self.tick("anon"), x))
             return out
 
         pkey = pk if S["page"]["key"] else "render_body"
@@ -247,6 +247,9 @@ def run_history(case, res):
                 s["args"] = {k: v for k, v in s["args"].items() if k == "timeout"}
         impl, base_args, dog = make_backend(backend, uid + "_%d" % i)
         text = emit(spec, dog)
+        # the internal name of the anonymous block (its default cache key) comes from its position in the text
+        at = text.index("<%block" + attrs(spec["sec"]["anon"], "anon", dog) + ">AN:")
+        spec["anon_key"] = "__M_anon_%d_%d" % (text.count("\n", 0, at) + 1, at - text.rfind("\n", 0, at))
         if punct:
             uri = "/h%s/a%sb.html" % (uid, "-_."[i])
         else:
